@@ -346,17 +346,36 @@ func verifC17_MQTTDeleteEvent() {
 // QoS 0 and 1, with both cleanSession values of the two connections.
 func verifC15_DeliveryAfterTakeover() {
 	b := vC16Broker(0)
-	c1 := vConnect("c", verifBool("old.cleanSession"), "")
+	oldClean, newClean := verifBool("old.cleanSession"), verifBool("new.cleanSession")
+	c1 := vConnect("c", oldClean, "old/1")
 	go b.handleConn(c1)
 	verifQuiesce()
-	c2 := vConnect("c", verifBool("new.cleanSession"), "")
+	cl1 := b.clients["c"]
+	verifAssert(cl1 != nil && vRouted(b, "old/1", "c"), "first-connection-subscribed")
+	// a QoS1 message is in flight to the first connection, not yet acknowledged
+	cl1.session.publish(nil, "old/1", []byte{5}, QoS1)
+	unacked := len(cl1.session.pending)
+	c2 := vConnect("c", newClean, "")
 	go b.handleConn(c2)
 	verifQuiesce()
 	verifAssert(c2.connack == int(packets.Accepted), "takeover-accepted")
 	cl2 := b.clients["c"]
 	verifAssert(cl2 != nil && cl2.conn == net.Conn(c2), "broker-maps-the-id-to-the-new-connection")
+	if !oldClean && !newClean {
+		// the session goes on: the subscription and the unacknowledged message are the new connection's
+		verifAssert(len(cl2.session.pending) == unacked && unacked == 1, "takeover-with-cleanSession-false-keeps-the-unacknowledged-messages")
+		_, has := cl2.session.info.Topics["old/1"]
+		verifAssert(has, "takeover-with-cleanSession-false-keeps-the-subscriptions")
+		verifCover("session-continued")
+	}
 	close(c1.drop) // the superseded connection ends now
 	verifQuiesce()
+	if !cl2.disconnected() {
+		// whatever the old connection's teardown did: the id is not routed for a filter that the
+		// session of the connection holding the id does not have
+		_, has := cl2.session.info.Topics["old/1"]
+		verifAssert(!vRouted(b, "old/1", "c") || has, "no-routing-for-filters-the-current-session-does-not-hold")
+	}
 	if cl2.disconnected() {
 		// known finding F-C16-1b: with a clean old session the old teardown ends the new
 		// connection through the delete watch; nothing to deliver to
@@ -603,8 +622,10 @@ func verifC14_MultiFilterPackets() {
 	c1 := vConnect("c", false, "")
 	c1.script = append(c1.script, vSubscribePacket(1, []string{"a/1"}, []byte{1}))
 	bad := "zz/#/x"
-	kind := verifChoose("packetWithMalformedFilter", 5)
+	kind := verifChoose("packetWithMalformedFilter", 6)
 	switch kind {
+	case 5: // one SUBSCRIBE lists the same filter twice with different QoS: the later entry counts
+		c1.script = append(c1.script, vSubscribePacket(2, []string{"c/3", "c/3"}, []byte{1, 0}))
 	case 4: // the rejected SUBSCRIBE lists a filter the client already holds
 		c1.script = append(c1.script, vSubscribePacket(2, []string{"a/1", bad}, []byte{0, 1}))
 	case 0:
@@ -627,10 +648,17 @@ func verifC14_MultiFilterPackets() {
 		for _, f := range []string{"a/1", "c/3"} {
 			_, inSession := sess.info.Topics[f]
 			verifAssert(vRouted(b, f, "c") == inSession, "routing-table-and-session-agree-on-every-filter")
+			if q, ok := vRoutedQoS(b, f, "c"); ok && inSession {
+				verifAssert(int(q) == sess.info.Topics[f], "routing-table-and-session-agree-on-the-qos")
+			}
 		}
 		_, hasBad := sess.info.Topics[bad]
 		verifAssert(!hasBad, "malformed-filter-is-not-recorded-in-the-session")
-		if kind == 2 || kind == 3 {
+		if kind == 5 {
+			q, ok := vRoutedQoS(b, "c/3", "c")
+			verifAssert(ok && q == 0, "later-entry-of-a-repeated-filter-counts")
+			verifCover("filter-repeated-in-one-packet")
+		} else if kind == 2 || kind == 3 {
 			verifAssert(!vRouted(b, "a/1", "c"), "unsubscribed-filter-is-not-routed-any-more")
 			verifCover("unsubscribe-listing-a-malformed-filter")
 		} else {
